@@ -87,10 +87,25 @@ def drop_prefixes(behs):
 
 
 def sample(rnd, behs, n):
+    """seeded sample, stratified by (configuration, kind of the last step): a transition cover is dominated by the
+    actions with many argument choices (histories); every kind of last transition gets an equal share"""
     if len(behs) <= n:
         return behs
-    idx = sorted(rnd.sample(range(len(behs)), n))
-    return [behs[i] for i in idx]
+    strata = {}
+    for k, b in enumerate(behs):
+        last = b["steps"][-1]
+        key = (b["cfg"]["lvl"], b["cfg"]["ac"], b["cfg"]["lim"], last["a"], last["del"], last["i"])
+        strata.setdefault(key, []).append(k)
+    for v in strata.values():
+        rnd.shuffle(v)
+    picked, keys = [], sorted(strata)
+    while len(picked) < n and keys:
+        for key in list(keys):
+            if not strata[key]:
+                keys.remove(key)
+            elif len(picked) < n:
+                picked.append(strata[key].pop())
+    return [behs[i] for i in sorted(picked)]
 
 
 def split(rows):
